@@ -462,8 +462,10 @@ def main(mod_name, tier, seed, nshards=None, budget=None, quiet=True):
         print(tot.errors[0])
         rc = 2
 
+    # a class the property names was never generated: a generator bug must not pass as "held"
+    # (only meaningful when no violation cut the cases short)
     missing = [c for c in getattr(mod, 'REQUIRED_CLASSES', []) if tot.classes.get(c, 0) == 0]
-    if missing and rc == 0 and total > 0:
+    if missing and rc == 0 and total > 0 and not tot.buckets:
         print(f'HARNESS-ERROR property={pid} generator never produced classes {missing}')
         rc = 2
 
